@@ -10,15 +10,16 @@ Parsers == {"qcow2", "vhdx", "vdi", "hds", "hdd", "vmdk-sparse", "hyperv", "enve
 GatesOf(p) ==
   CASE p = "qcow2"    -> <<"magic", "version", "cluster_bits", "subcluster_size", "crypt_method", "compression", "data_file", "backing_file">>
     [] p = "vhdx"     -> <<"file_identifier", "header_signature", "region_signature_1", "region_signature_2", "metadata_region", "metadata_signature",
-                           "required_item", "locator_type", "parent_resolved", "bat_region">>
+                           "required_item", "unknown_required_item", "locator_type", "parent_resolved", "bat_region">>
     [] p = "vdi"      -> <<"signature">>
     [] p = "hds"      -> <<"signature">>
     [] p = "hdd"      -> <<"descriptor_present", "image_type", "parent_image_type">>   \* image types of every snapshot in the chain
     [] p = "vmdk-sparse" -> <<"magic", "footer_magic">>                                 \* stream-optimised extents carry a second header at the end
-    [] p = "hyperv"   -> <<"header_signature", "version", "replay_log_signature", "object_table_signature", "key_table_signature">>
+    [] p = "hyperv"   -> <<"header_signature", "version", "replay_log_signature", "object_table_signature", "chained_object_table_signature",
+                           "key_table_signature">>
     [] p = "envelope" -> <<"magic", "version", "attr_keyinfo", "attr_ciphername", "attr_keyhash", "cipher", "aead_footer_version">>
     [] p = "keystore" -> <<"mode_present", "mode_none">>
-    [] p = "keysafe"  -> <<"identifier", "locator_kind">>
+    [] p = "keysafe"  -> <<"identifier", "locator_kind", "pass2key", "phrase_cipher", "hmac">>
 
 VARIABLES parser, feats, step, verdict, served
 vars == <<parser, feats, step, verdict, served>>
